@@ -39,6 +39,7 @@ type FuncContract struct {
 	Requires  []Clause
 	Ensures   []Clause
 	Defines   []Clause // definitional postconditions: assumed at call sites, not checked against the body (listed as assumptions)
+	Keeps     []string // with `modifies *` on a trusted contract: element memory of these Go types is left unchanged for arrays that existed before the call
 	Assumes   []Clause // assumed at function entry, NOT checked at call sites (shape of the input the caller cannot express); listed as assumptions
 	Modifies  []Clause // expressions p.f / p.f[*]; a single "*" identifier = everything
 	ModAll    bool
@@ -137,7 +138,7 @@ type srcLine struct {
 
 var blockKw = map[string]bool{"func": true, "spec": true, "predicate": true, "axiom": true, "lemma": true,
 	"ghostfield": true, "functype": true, "interface": true, "guard": true, "const": true, "extern": true, "package": true}
-var clauseKw = map[string]bool{"requires": true, "ensures": true, "defines": true, "assumes": true, "modifies": true, "decreases": true, "loop": true,
+var clauseKw = map[string]bool{"requires": true, "ensures": true, "defines": true, "assumes": true, "keeps": true, "modifies": true, "decreases": true, "loop": true,
 	"uses": true, "trusted": true, "pure": true, "inline": true, "nopanic": true, "maypanic": true, "induction": true,
 	"refines": true, "implements": true, "props": true, "trigger": true, "read": true, "write": true}
 
@@ -389,6 +390,13 @@ func (c *Contracts) parseLines(lines []srcLine, scope string) error {
 				return err
 			}
 			curF.Defines = append(curF.Defines, e)
+		case "keeps":
+			if curF == nil {
+				return fmt.Errorf("%s:%d: keeps outside func", s.file, s.line)
+			}
+			for _, part := range splitTopLevelComma(s.rest) {
+				curF.Keeps = append(curF.Keeps, strings.TrimSpace(part))
+			}
 		case "assumes":
 			if curF == nil {
 				return fmt.Errorf("%s:%d: assumes outside func", s.file, s.line)
